@@ -13,6 +13,7 @@ import (
 	"google.golang.org/grpc/status"
 
 	"verif/mc"
+	"verif/mc/mcctx"
 	"verif/world"
 )
 
@@ -88,7 +89,7 @@ func (p qcParams) name() string {
 	}
 	c := "none"
 	if p.cancel != nil {
-		c = map[error]string{context.Canceled: "canceled", context.DeadlineExceeded: "deadline"}[p.cancel]
+		c = map[error]string{context.Canceled: "canceled", context.DeadlineExceeded: "deadline", appCause: "canceled-with-cause"}[p.cancel]
 		if p.pre {
 			c = "pre-" + c
 		}
@@ -98,6 +99,18 @@ func (p qcParams) name() string {
 		h = fmt.Sprintf("/slow-qf@%d", p.hold)
 	}
 	return fmt.Sprintf("qc/%s/%s/%s/cancel=%s%s", p.kind, strings.Join(bs, ","), p.qf.name, c, h)
+}
+
+// appCause cancels a call's context the way context.WithCancelCause does: ctx.Err() is context.Canceled and
+// context.Cause(ctx) is an application error. Callers must still see the context's error.
+var appCause = mcctx.WithCause{Cause: errors.New("application is shutting down")}
+
+// ctxErrOf is what ctx.Err() reports after a cancellation with err.
+func ctxErrOf(err error) error {
+	if _, ok := err.(mcctx.WithCause); ok {
+		return context.Canceled
+	}
+	return err
 }
 
 func handlerError(node int) error {
@@ -316,7 +329,7 @@ func qcHistory(p qcParams) func() {
 						fail("C07/handler-status", classOf(p.kind), "%s: handler status of node %d lost in %q", p.name(), i+1, rerr.Error())
 					}
 				}
-			case p.cancel != nil && errors.Is(rerr, p.cancel):
+			case p.cancel != nil && errors.Is(rerr, ctxErrOf(p.cancel)):
 				mc.Outcome("ctx")
 				if !cancelled {
 					fail("C02/ctx-without-cancel", classOf(p.kind), "%s: context error before the context ended", p.name())
@@ -436,7 +449,7 @@ func qcInstances(tier string) []Instance {
 	cancels := []struct {
 		err error
 		pre bool
-	}{{nil, false}, {context.Canceled, false}, {context.DeadlineExceeded, false}, {context.Canceled, true}}
+	}{{nil, false}, {context.Canceled, false}, {context.DeadlineExceeded, false}, {context.Canceled, true}, {appCause, false}}
 	maxN := 3
 	for n := 1; n <= maxN; n++ {
 		kinds := append(append([]string{}, syncKinds...), asyncKinds...)
@@ -488,7 +501,7 @@ func qcInstances(tier string) []Instance {
 }
 
 func init() {
-	rule := "every history of one quorum call: n in 1..3 nodes x per-node behaviour {reply 0, reply 1, handler error, silent, skipped} x quorum function {threshold 1..n+1, two equal values, any value 1} x call variant (plain, per-node, custom return type, combo; sync and async) x cancel {none, Canceled, DeadlineExceeded, already ended} x slow quorum function {none, the 1st / 2nd invocation blocks while all remaining answers arrive and queue up}; the script delivers answers one at a time at quiescent points in every order (free choices) and every schedule within the deviation bound is explored inside each step; an outcome is the pair (delivery history, result class)"
+	rule := "every history of one quorum call: n in 1..3 nodes x per-node behaviour {reply 0, reply 1, handler error, silent, skipped} x quorum function {threshold 1..n+1, two equal values, any value 1} x call variant (plain, per-node, custom return type, combo; sync and async) x cancel {none, Canceled, DeadlineExceeded, already ended, cancelled with a cause (context.WithCancelCause)} x slow quorum function {none, the 1st / 2nd invocation blocks while all remaining answers arrive and queue up}; the script delivers answers one at a time at quiescent points in every order (free choices) and every schedule within the deviation bound is explored inside each step; an outcome is the pair (delivery history, result class)"
 	assume := []string{
 		"transport is the fakegrpc model (ordered reliable frames per stream, window 2); Go primitives are the gomc shims",
 		"interleavings are explored up to the reported deviation bound from the non-preemptive round-robin schedule; free choices (arrival order, select ties) are exhaustive",
